@@ -387,8 +387,8 @@ class AbstractHasAxes(AbstractHasMetadata):
         if isinstance(axis, str):
             idx = self.dims.index(axis)
 
-        elif type(axis) is int:
-            idx = axis
+        elif isinstance(axis, (int, np.integer)) and not isinstance(axis, (bool, np.bool_)):
+            idx = int(axis) # (numpy integers -- np.argsort, np.argmax hand them out -- are positions too)
             if idx < 0: # position counted from the end, as in numpy
                 idx += len(self.axes)
                 if idx < 0:
